@@ -150,9 +150,9 @@ Theorem format_unfixed_refuted :
   accepted (meas_text_unfixed 1 0) = false.
 Proof.
   split; [|split; [|split]].
-  - eexists; split; vm_compute; reflexivity.
-  - eexists; split; vm_compute; reflexivity.
-  - eexists; split; vm_compute; reflexivity.
+  - eexists; split; [vm_compute; reflexivity|]. vm_compute. reflexivity.
+  - eexists; split; [vm_compute; reflexivity|]. vm_compute. reflexivity.
+  - eexists; split; [vm_compute; reflexivity|]. vm_compute. reflexivity.
   - vm_compute. reflexivity.
 Qed.
 (* the same values through the fixed formatting are accepted *)
@@ -161,4 +161,4 @@ Example format_fixed_ok :
   (exists t, qasm_str "rx" [] [0] (PNum (NFloat (FExp false "1" None true "09"))) = Some t /\ accepted t = true) /\
   (exists t, qasm_str "U" [] [0] (PTuple [NFloat (FDec false "1" "0"); NFloat (FDec false "2" "0"); NInt false 3]) = Some t /\ accepted t = true) /\
   (exists t, op_text export_names (EMeas 1 (Some 0)) = Some t /\ accepted t = true).
-Proof. split; [|split; [|split]]; eexists; split; vm_compute; reflexivity. Qed.
+Proof. split; [|split; [|split]]; (eexists; split; [vm_compute; reflexivity|]; vm_compute; reflexivity). Qed.
